@@ -10,6 +10,7 @@ RULE = ("same hostile dimension-wise engine as C03 (d=1..4, start levels, versio
         "/ lmax bound / margin selection / cursor state are asserted. distinct = hash of final (coordinate, level) sequences; "
         "non-trivial = >=1 rotation or >=1 lmax raise or a step in which the margin rule selected >=2 intervals")
 RULE += (" " + 'Margins also 0.0 and unset (documented default 0.9); the selection threshold is computed from the margin that was CONFIGURED, not from the value read back from the object.')
+RULE += (" A fifth of the histories are continued by a second performSpatiallyAdaptiv(start levels, refinement_container=current refinement) for 1..3 further steps.")
 REQUIRED = ["tiling", "shared_point_levels", "binary_tree_rule", "coarsening_identity", "lmax_bounds_depth",
             "selection_rule", "children_replace_parent", "container_cursors"]
 MIN_NONTRIVIAL = {"quick": 150, "thorough": 1500}
@@ -67,6 +68,7 @@ def run_case(case, res):
     obs = Obs(res, cfg, err)
     c = dimwise.build(cfg, f, obs)
     dimwise.run(c, cfg, err)
+    dimwise.maybe_restart(rng, c, cfg, err, obs, res)
     res.hash = dimwise.structure_digest(c)
     res.nontrivial = obs.lmax_raises > 0 or obs.rotations > 0 or obs.multi > 0
     res.count("lmax_raises", obs.lmax_raises)
